@@ -5,7 +5,7 @@ PROP = dict(
     shard_extra=[dict(level="store"), dict(level="mgr")],
     driver_args=["c05/"],
     flag_filter=r"^c05/",
-    quick=dict(n=96, len=40, shards=8, timeout=300),
+    quick=dict(n=384, len=40, shards=16, timeout=300),
     thorough=dict(n=4000, len=60, shards=16, timeout=1700),
     nontrivial=r"^(usage|apply|revert) ", min_ops=10, min_kinds=3,
     shrink_budget=80,
